@@ -85,6 +85,8 @@ type RT struct {
 	seq      int64
 	killing  bool
 	explore  bool
+	nextID   int
+	nDone    int
 	finished chan struct{}
 	exited   chan struct{}
 	ended    bool
@@ -137,7 +139,8 @@ var onRun []func(*RT)
 func OnRun(f func(*RT)) { onRun = append(onRun, f) }
 
 func (rt *RT) newThread(name string) *Thread {
-	t := &Thread{ID: len(rt.threads), Name: name, wake: make(chan struct{}, 1)}
+	t := &Thread{ID: rt.nextID, Name: name, wake: make(chan struct{}, 1)}
+	rt.nextID++
 	if rt.cur != nil {
 		t.Group = rt.cur.Group
 	}
@@ -157,6 +160,7 @@ func (rt *RT) threadMain(t *Thread, f func(), isRoot bool) {
 	defer func() {
 		r := recover()
 		t.done = true
+		rt.nDone++
 		if rt.killing {
 			rt.exited <- struct{}{}
 			return
@@ -254,6 +258,18 @@ func (t *Thread) runnable() bool {
 }
 
 func (rt *RT) enabled(self *Thread) (en []*Thread, selfFirst bool) {
+	if rt.nDone > 32 && rt.nDone*2 > len(rt.threads) {
+		// forget finished threads (order of the live ones is kept): long virtual-time runs spawn one
+		// short-lived thread per sweeper tick
+		live := rt.threads[:0:0]
+		for _, t := range rt.threads {
+			if !t.done {
+				live = append(live, t)
+			}
+		}
+		rt.threads = live
+		rt.nDone = 0
+	}
 	if self != nil && self.runnable() {
 		en = append(en, self)
 		selfFirst = true
